@@ -1,5 +1,5 @@
 """Per-property orchestration for /verif/check."""
-import concurrent.futures, hashlib, json, os, re, shutil, time
+import subprocess, concurrent.futures, hashlib, json, os, re, shutil, time
 
 import vf
 
@@ -475,6 +475,22 @@ def run(pid, tier, seed, sdir, replay, t0):
             mc_notes.append("%s/%s: %d distinct states, %d generated, %.0fs" % (
                 spec["module"], spec["cfg"][tier] if isinstance(spec["cfg"], dict) else spec["cfg"],
                 r.get("distinct", 0), r.get("generated", 0), r["wall"]))
+    tlaps_n = 0
+    if not replay:
+        for mod in P.get("tlaps", []):
+            # machine-checked proofs (TLAPS): unbounded counterparts of bounded model-checking results
+            wd = os.path.join(sdir, "tlaps-" + mod)
+            shutil.copytree(vf.SPEC, wd)
+            try:
+                pr = subprocess.run(["tlapm", "--threads", "8", mod + ".tla"], cwd=wd, stdout=subprocess.PIPE, stderr=subprocess.STDOUT,
+                                    text=True, errors="replace", timeout=1200)
+            except subprocess.TimeoutExpired:
+                raise vf.NoVerdict("tlapm timed out on %s" % mod)
+            m = re.search(r"All (\d+) obligations? proved", pr.stdout)
+            if not m:
+                raise vf.NoVerdict("TLAPS could not check %s.tla:\n%s" % (mod, pr.stdout[-1500:]))
+            tlaps_n += int(m.group(1))
+            mc_notes.append("%s.tla: %s proof obligations discharged by TLAPS" % (mod, m.group(1)))
     gen_path, gen_n = "", 0
     if P.get("gen"):
         gen_path, gen_n, _ = run_gen(sdir, P["gen"], tier, seed)
@@ -561,6 +577,7 @@ def run(pid, tier, seed, sdir, replay, t0):
         "conn_trace_rejected": sum(len((r.get("conn") or {}).get("rejected", [])) for r in results),
         "hook_traced_attempts": sum(1 for b in blocks for a in b.get("attempts", []) if isinstance(a, dict) and a.get("hookTrace")),
         "model_checking": mc_notes,
+        "tlaps_obligations_proved": tlaps_n,
         "checker_cmd": "java -cp tla2tools.jar tlc2.TLC -config <cfg> {%s}.tla" % ", ".join(
             sorted({part["trace_module"] for part in parts} | {s["module"] for s in P.get("mc", [])})),
         "trusted_base": ["TLC 1.8.0 + CommunityModules Json", "Go toolchain (and its race detector where used)",
@@ -745,7 +762,7 @@ REGISTRY = {
                      "GTID in and just outside the window for AddGTID/ContainsGTID, an evenly strided sample of the pairs (6 000 quick / 250 000 "
                      "thorough; the model check covers all pairs of its window) for Contains/Equal, random wide sets with AddGTID histories of up to 12 steps aimed at interval edges; distinct by content"),
     "C19": dict(mode="c19", trace_module="Trace_Codec", trace_cfg="Trace_Codec.cfg", props=["C19"], block_ev=["case"],
-                mc=[dict(module="MC_MariaGTID", cfg="MC_MariaGTID.cfg", workers=4)],
+                mc=[dict(module="MC_MariaGTID", cfg="MC_MariaGTID.cfg", workers=4)], tlaps=["MariaGTID_proofs"],
                 assumptions=["the flavor's own set parser is reached through a 3-line overlay shim in package replication (harness/repl/vf_shim.go)",
                              "GTID / PREVIOUS_GTIDS / MariaDB GTID event bodies are built by the harness's independent writer"],
                 rule="case = print/parse/encode/decode round trip of a GTID (all-00/all-ff/single-byte/random SIDs, sequence numbers to 2^63-1, "
